@@ -1,5 +1,227 @@
-"""mapping part of C04 (force_complete/functional/injective/surjective/nondecreasing)."""
+"""mapping part of C04: force_complete / functional / injective / surjective / nondecreasing
+for unary (new_mapping), sparse (new_sparse_mapping) and binary (new_binary_mapping) mappings.
+
+The exact, ordered clause / constraint lists cnfgen produces (classes CNF and OPB) are
+compared with the extracted model coq/Mapping.v (theorems in coq/Prop_C04_mapping.v).
+Independently of the model, on instances with few variables the implementation's constraints
+are evaluated on every assignment against the functional meaning (total / functional /
+injective / surjective / non-decreasing relation; for binary mappings the value spelled by
+the bits)."""
+from lib import cmd, Sym, is_error, import_impl, lit_true, pb_sat, assignments
+
+WHICH = ['complete', 'functional', 'surjective', 'injective', 'nondecreasing']
+
+
+def mapping_cases(ctx):
+    rng = ctx.rng
+    quick = ctx.tier == 'quick'
+    out = []
+    top = 6
+    for n in range(0, top + 1):
+        for m in range(0, top + 1):
+            if quick and n * m > 20 and (n + m) % 2:
+                continue
+            out.append(dict(kind='unary', n=n, m=m))
+    for n in range(1, (4 if quick else 6) + 1):
+        for m in [1, 2, 3, 4, 5, 6, 7, 8, 9] + ([] if quick else [12, 15, 16, 17]):
+            if quick and n * max(1, (m - 1).bit_length()) > 9:
+                continue
+            out.append(dict(kind='binary', n=n, m=m))
+    for _ in range(60 if quick else 600):
+        L, R = rng.randint(0, 6), rng.randint(0, 6)
+        dens = rng.choice([0.0, 0.25, 0.5, 0.75, 1.0])
+        edges = sorted([u, v] for u in range(1, L + 1) for v in range(1, R + 1) if rng.random() < dens)
+        out.append(dict(kind='sparse', L=L, R=R, edges=edges))
+    return out
+
+
+def mapping_sx(mc):
+    if mc['kind'] == 'unary':
+        return [Sym('unary'), [list(range(1, mc['m'] + 1)) for _ in range(mc['n'])], mc['m']]
+    if mc['kind'] == 'sparse':
+        adj = [[] for _ in range(mc['L'])]
+        for u, v in mc['edges']:
+            adj[u - 1].append(v)
+        return [Sym('unary'), [sorted(a) for a in adj], mc['R']]
+    return [Sym('binary'), mc['n'], mc['m']]
+
+
+def build_mapping(F, mc):
+    from cnfgen.graphs import BipartiteGraph
+    if mc['kind'] == 'unary':
+        return F.new_mapping(mc['n'], mc['m'])
+    if mc['kind'] == 'sparse':
+        B = BipartiteGraph(mc['L'], mc['R'])
+        for u, v in mc['edges']:
+            B.add_edge(u, v)
+        return F.new_sparse_mapping(B)
+    return F.new_binary_mapping(mc['n'], mc['m'])
+
+
+def meaning(which, mc, f, a):
+    """the functional meaning of the constraint, read off the assignment a (indexed by variable id)"""
+    if mc['kind'] == 'binary':
+        n, m, k = mc['n'], mc['m'], f.bits()
+        val = {i: sum((1 << b) for b in range(k) if a[f(i, b)]) for i in range(1, n + 1)}
+        if which == 'complete':
+            return all(val[i] < m for i in val)
+        if which == 'functional':
+            return True
+        if which == 'injective':
+            return all(not (val[i] == val[j] and val[i] < m) for i in val for j in val if i < j)
+        if which == 'nondecreasing':
+            return all(not (val[i] > val[j] and val[i] < m) for i in val for j in val if i < j)
+        return None
+    dom = list(f.domain())
+    ran = list(f.range())
+    R = {(i, j): a[f(i, j)] for i in dom for j in f.range(i)}
+    if which == 'complete':
+        return all(any(R[(i, j)] for j in f.range(i)) for i in dom)
+    if which == 'functional':
+        return all(sum(1 for j in f.range(i) if R[(i, j)]) <= 1 for i in dom)
+    if which == 'surjective':
+        return all(any(R[(i, j)] for i in f.domain(j)) for j in ran)
+    if which == 'injective':
+        return all(sum(1 for i in f.domain(j) if R[(i, j)]) <= 1 for j in ran)
+    if which == 'nondecreasing':
+        return all(not (R[(i1, j1)] and R[(i2, j2)] and j1 > j2)
+                   for i1 in dom for i2 in dom if i1 < i2 for j1 in f.range(i1) for j2 in f.range(i2))
+    return None
+
+
+def holds(cname, constraints, a):
+    if cname == 'CNF':
+        return all(any(lit_true(a, l) for l in c) for c in constraints)
+    return all(pb_sat(a, list(c)) for c in constraints)
+
+
+def search_failing(which, mc, f, cname, constraints, off, nvar):
+    """assignment on which the added constraints and the functional meaning differ"""
+    if nvar - off > 11:
+        return None
+    for bits in range(1 << (nvar - off)):
+        a = [None] + [False] * off + [bool((bits >> i) & 1) for i in range(nvar - off)]
+        want = meaning(which, mc, f, a)
+        if want is None:
+            return None
+        try:
+            got = holds(cname, constraints, a)
+        except Exception as e:  # noqa
+            return {'malformed-output': repr(e)}
+        if got != want:
+            return {'assignment': [i for i in range(off + 1, nvar + 1) if a[i]], 'constraints_hold': got, 'meaning_holds': want}
+    return None
+
+
+def canon(cname, F):
+    if cname == 'CNF':
+        return [list(c) for c in F]
+    return [[list(t) if isinstance(t, tuple) else t for t in c] for c in F]
 
 
 def run_mappings(ctx):
-    ctx.note('mapping constraints: not yet connected')
+    import_impl()
+    from cnfgen.formula.cnf import CNF
+    from cnfgen.formula.opb import OPB
+    rng = ctx.rng
+    jobs = []
+    for mc in mapping_cases(ctx):
+        ctx.tally('mapping kind', mc['kind'])
+        for which in WHICH:
+            for cname, C in (('CNF', CNF), ('OPB', OPB)):
+                off = rng.choice([0, 0, 3, rng.randint(0, 9)])
+                descr = dict(cls=cname, mapping=mc, constraint=which, anonymous_before=off)
+                F = C()
+                F.update_variable_number(off)
+                try:
+                    f = build_mapping(F, mc)
+                except Exception as e:  # noqa
+                    ctx.violation('counterexample', 'mapping creation raised %s' % type(e).__name__, dict(input=descr, error=str(e)[:200]), True,
+                                  site='mapping-' + mc['kind'], cls='creation-raises-' + type(e).__name__)
+                    continue
+                raised = None
+                try:
+                    getattr(F, 'force_%s_mapping' % which)(f)
+                except ValueError:
+                    raised = 'ValueError'
+                except Exception as e:  # noqa
+                    raised = type(e).__name__
+                got = canon(cname, F)
+                jobs.append((descr, mc, which, cname, off, f, F.number_of_variables(), got, raised,
+                             cmd('mapping_constraints', mapping_sx(mc), off, which)))
+    run_forbid(ctx, CNF)
+    replies = ctx.model.batch([j[-1] for j in jobs])
+    for (descr, mc, which, cname, off, f, nvar, got, raised, _), rep in zip(jobs, replies):
+        key = (cname, str(mc), which, off)
+        ctx.count('mapping-' + cname, key, nvar > off, sample=descr)
+        site = 'force_%s_mapping-%s' % (which, mc['kind'])
+        if is_error(rep):
+            ctx.violation('correspondence', 'model error', dict(input=descr, model=rep), False, site='model-error', cls=site)
+            continue
+        mraised, mcnf, mopb = rep
+        want = mcnf if cname == 'CNF' else [[list(t) for t in c[0]] + [c[1], c[2]] for c in mopb]
+        # the property itself on the implementation (independent of the model)
+        bad = None
+        if raised is None or (mc['kind'] == 'binary' and which == 'surjective'):
+            if not (mc['kind'] == 'binary' and which == 'surjective'):
+                bad = search_failing(which, mc, f, cname, got, off, nvar)
+        if raised not in (None, 'ValueError'):
+            ctx.disagreements_checked += 1
+            ctx.violation('counterexample', 'force_%s_mapping raised %s' % (which, raised), dict(input=descr, implementation=got), True,
+                          site=site, cls='raises-' + raised)
+            continue
+        if bad is not None:
+            ctx.disagreements_checked += 1
+            ctx.violation('counterexample', 'the constraints added by force_%s_mapping do not mean "%s"' % (which, which),
+                          dict(input=descr, witness=bad, implementation=got, model=want), True, site=site, cls='semantics')
+            continue
+        if got == want and (raised == 'ValueError') == bool(mraised):
+            continue
+        ctx.disagreements_checked += 1
+        ctx.violation('correspondence', 'output of force_%s_mapping differs from the model (coq/Mapping.v); theorems C04_map_* no longer cover the code' % which,
+                      dict(input=descr, implementation=dict(raised=raised, constraints=got), model=dict(raised=bool(mraised), constraints=want),
+                           correspondence='Mapping.v <-> VariablesManager.force_%s_mapping' % which), False, site=site, cls='order-or-shape')
+
+
+def run_forbid(ctx, CNF):
+    """BinaryMappingVariables.forbid(i,j) for every pigeon and every j up to just beyond 2^bits:
+    the clause (or ValueError) against the model, and directly against "falsified exactly by the bits spelling j" """
+    rng = ctx.rng
+    probes = []
+    for n in (1, 2, 3):
+        for m in (1, 2, 3, 4, 5, 6, 7, 8, 9, 13, 16, 17):
+            off = rng.choice([0, 2, 5])
+            F = CNF()
+            F.update_variable_number(off)
+            f = F.new_binary_mapping(n, m)
+            k = f.bits()
+            for i in range(1, n + 1):
+                for j in range(0, 2 ** k + 2):
+                    try:
+                        got = ('ok', list(f.forbid(i, j)))
+                    except ValueError:
+                        got = ('ValueError',)
+                    except Exception as e:  # noqa
+                        got = ('exc', type(e).__name__)
+                    probes.append((dict(n=n, m=m, i=i, j=j, anonymous_before=off), got, [f(i, b) for b in range(k)],
+                                   cmd('forbid', off, n, m, i, j)))
+    replies = ctx.model.batch([p[-1] for p in probes])
+    for (descr, got, bitvars, _), rep in zip(probes, replies):
+        ctx.count('forbid', (descr['n'], descr['m'], descr['i'], descr['j'], descr['anonymous_before']), True, sample=descr)
+        want = ('ok', rep[1]) if isinstance(rep, list) else ('ValueError',)
+        if got[0] == 'exc':
+            ctx.violation('counterexample', 'forbid raised %s' % got[1], dict(input=descr), True, site='forbid', cls='raises-' + got[1])
+            continue
+        if got[0] == 'ok':
+            # falsified exactly when bit b of pigeon i equals bit b of j
+            j = descr['j']
+            expect = sorted((-v if (j >> b) & 1 else v) for b, v in enumerate(bitvars))
+            if sorted(got[1]) != expect:
+                ctx.disagreements_checked += 1
+                ctx.violation('counterexample', 'forbid(i,j) is not the clause falsified exactly by the bits spelling j',
+                              dict(input=descr, implementation=got[1], expected_literals=expect), True, site='forbid', cls='semantics')
+                continue
+        if got != want:
+            ctx.disagreements_checked += 1
+            ctx.violation('correspondence', 'forbid differs from the model (coq/Mapping.v forbid; theorem C04_map_forbid)',
+                          dict(input=descr, implementation=list(got), model=list(want)), False, site='forbid', cls='differs')
